@@ -29,12 +29,13 @@ Definition pr_var (v : fvar) : bool :=
 Definition first_char (s : string) : option ascii := match s with String c _ => Some c | _ => None end.
 
 (* may the text [s] directly follow the prefix operator [op]?  `-` glues with `-` (to `--`);
-   `!` glues with the characters of a difficulty string and with `=`; and the grammar allows a
-   single prefix operator per level, so a literal that prints with its own `-` cannot follow any. *)
+   `!` glues with the characters of a difficulty string; `-` and `!` glue with `=` (no expression
+   starts with `=`); and the grammar allows a single prefix operator per level, so a literal that
+   prints with its own `-` cannot follow any. *)
 Definition follows_ok (op : string) (s : string) : bool :=
   match first_char s with
-  | Some c => negb (Ascii.eqb c "-"%char)
-              && (negb (String.eqb op "!") || negb (is_diff_char c || Ascii.eqb c "="%char))
+  | Some c => negb (Ascii.eqb c "-"%char) && negb (Ascii.eqb c "="%char)
+              && (negb (String.eqb op "!") || negb (is_diff_char c))
   | None => false
   end.
 
